@@ -18,6 +18,22 @@ W=.work/$ID-$TIER${VERIF_ONLY:+-replay}
 mkdir -p "$W"
 EXTRA=()
 if [ -n "${VERIF_EXTRA_OVERLAY:-}" ]; then EXTRA=(-overlay "$VERIF_EXTRA_OVERLAY"); fi
+case "$ID" in
+ C17) SEAMS=M ;;
+ C20) SEAMS=MSA ;;
+ *) SEAMS= ;;
+esac
+if [ -n "$SEAMS" ]; then
+  # instrument a copy of the current working tree and build against it (nothing is written to /repo)
+  if [ ! -x .work/bin/vinst ] || [ vinst/main.go -nt .work/bin/vinst ]; then
+    mkdir -p .work/bin; (cd vinst && go build -o ../.work/bin/vinst .) 2> "$W/build.log" || { echo "BUILD-ERROR (vinst)" >&2; cat "$W/build.log" >&2; exit 2; }
+  fi
+  if ! .work/bin/vinst -repo /repo -rt "$PWD/rt" -out "$PWD/$W/inst" -seams "$SEAMS" > "$W/vinst.log" 2>&1; then
+    echo "BUILD-ERROR (instrumenter; not a verdict): see $W/vinst.log" >&2; tail -20 "$W/vinst.log" >&2; exit 2
+  fi
+  export VERIF_INST_STATS="$PWD/$W/inst/stats.json"
+  EXTRA=(-tags verif -overlay "$PWD/$W/inst/overlay.json")
+fi
 if ! go build "${EXTRA[@]}" -o "$W/vcheck" ./cmd/vcheck 2> "$W/build.log"; then
   echo "BUILD-ERROR (not a verdict): see $W/build.log" >&2; tail -20 "$W/build.log" >&2; exit 2
 fi
